@@ -480,7 +480,7 @@ func (e *escaper) escapeBranch(c context, n *parse.BranchNode, nodeName string) 
 		// (A loop body that is nothing but an attribute name is accepted: the name it
 		// repeats is not treated as split, unless the name decides how other attributes
 		// or the content of the element are treated.)
-		if reflect.DeepEqual(c0, c) {
+		if sameForAnalysis(c0, c) {
 			// The body ends exactly where it starts: analysing it once more from there gives
 			// the same result (and would take time that doubles with every level of nesting).
 			return join(c0, e.escapeList(c, n.ElseList), n, nodeName)
@@ -544,6 +544,33 @@ func sameNames(a, b []string) bool {
 		delete(set, n)
 	}
 	return len(set) == 0
+}
+
+// sameForAnalysis reports whether a list analysed from a gives the same result as analysed
+// from b: the contexts are equal, or both are HTML text and differ only in elements whose
+// content is ordinary HTML (a list body that starts in <ul> and ends after </li>).
+func sameForAnalysis(a, b context) bool {
+	if a.state == stateText && b.state == stateText && plainContent(a.element) && plainContent(b.element) {
+		a.element, b.element = element{}, element{}
+	}
+	return reflect.DeepEqual(a, b)
+}
+
+// plainContent reports whether actions and called templates in the content of the element
+// are treated as in a context without element, under every name the element may have.
+func plainContent(e element) bool {
+	if e.split {
+		return false
+	}
+	for _, name := range append([]string{e.name}, e.names...) {
+		if name == "" {
+			continue
+		}
+		if sc, err := sanitizationContextForElementContent(name); err != nil || sc != sanitizationContextHTML {
+			return false
+		}
+	}
+	return true
 }
 
 // bareName returns the lower-case text of the list if it consists of a single text
